@@ -50,7 +50,7 @@ for _f, _n in (("P1", 10), ("P2", 6), ("P3", 4), ("P4", 8), ("P5", 15), ("P6", 8
 for _f, _n in (("B1", 25), ("B2", 20), ("B3", 5)):
     reg(_f, getattr(tables, "rule_" + _f), _n)
 
-for _f, _n in (("Q1", 20), ("Q2", 12), ("Q3", 4), ("Q4", 2), ("C1", 15), ("C2", 5)):
+for _f, _n in (("Q1", 20), ("Q2", 12), ("Q3", 4), ("Q4", 2), ("Q5", 1), ("C1", 15), ("C2", 5)):
     reg(_f, getattr(cue, "rule_" + _f), _n)
 
 for _f, _n in (("I1", 10), ("I2", 6), ("I3", 3), ("I4", 5), ("I5", 6), ("I6", 60), ("I7", 1), ("I8", 1), ("I9", 1), ("I10", 1), ("O1", 6), ("R1", 1)):
@@ -91,7 +91,7 @@ PROPS = {
               "over the 7 modes (L8r, S7); cluster_top slicing and fat_entry chain (D4); FAT decoder terminates, installs links only at END words, raises only for "
               "malformed tables (T1, D1, D3, D2); per-performance collection loops and orphan detection over DISTINCT referenced performances (O1); routines at every "
               "level (N1); shared construct objects keep no per-parse state (I6)." + NOT + "byte equality; np.isin orphan mask semantics; FAT version handling of directory links."),
-    "C03": _p(["L8c", "T1", "P5", "C2", "Q4", "Q2", "Q1", "R1", "P8"],
+    "C03": _p(["L8c", "T1", "P5", "C2", "Q4", "Q2", "Q1", "R1", "P8", "Q5"],
               "Decides the CDDA window clauses as E-AFF terms: MSF polynomial 4500m+75s+f, 2352-byte sectors, per-track offset = 2352*first_index(cur) and "
               "offset+size = 2352*first_index(next) (tiling identity: no gap, no overlap), last track to end_of_file, first INDEX used, walk advances with each emitted "
               "track (L8c, T1-ITERATOR); all-audio cue -> CDDA (C2, Q4); whole-frame truncation with the stream's own frame size (P5); cue field extraction (Q1, Q2); every source stream is rewound before the "
@@ -177,7 +177,7 @@ PROPS = {
               "to after construction (I6); nothing stored on a (memoised) element is a one-shot iterator that the first traversal would use up (I7); "
               "users of memoised child / file lists never change them in place (I8)." + NOT +
               "equality across operation histories; effects of context mutation in wrap_child_realization."),
-    "C17": _p(["Q1", "Q2", "Q3", "Q4", "T1"],
+    "C17": _p(["Q1", "Q2", "Q3", "Q4", "T1", "Q5"],
               "Decides: the four line regexes are case-insensitive, tolerate leading blanks, match their keyword and capture the documented groups (Q1); blank lines are judged on the fully "
               "stripped text, the next-track test is exactly the TRACK regex, unknown lines inside a track are recorded and skipped, non-FILE lines before FILE are skipped, no FILE -> "
               "BadCueSheet (Q2); strict ASCII probe with fallback to binary (Q3); mode comparisons via lower() (Q4); the four line-consuming loops terminate (T1-LEN-CONSUME)." + NOT +
